@@ -16,7 +16,7 @@ def Own (s : St) : Prop :=
 
 def OwnC (s : St) : Prop :=
   ∀ (g : Nat) (y : G) (i : Nat) (x : Inst), s.gens[g]? = some y → y.insts[i]? = some x → x.cancelled = false →
-    s.ctx.isSome = true
+    isLive s.ctx = true
 
 theorem own_congr {s s' : St} (hk : s'.keys = s.keys) (hg : s'.gens = s.gens) (h : Own s) : Own s' := by
   intro g y i x hy hx hc
